@@ -84,9 +84,11 @@ func parseLayout(e []byte) *layout {
 		l.ents = append(l.ents, xent{vk.Clone(key), vk.Clone(md), vk.Clone(val)})
 	}
 	l.trailLo = i
-	i = add("tLen", i, 2)
-	l.trunc = e[i] == 1
-	add("truncFlag", i, 1)
+	if i+3 <= len(e) { // the trailer is optional for ReplicateTx (an altered export may lack it)
+		i = add("tLen", i, 2)
+		l.trunc = e[i] == 1
+		add("truncFlag", i, 1)
+	}
 	return l
 }
 
